@@ -206,7 +206,7 @@ def build(members, layout=None) -> bytes:
     if flat != [i for i in range(len(members)) if i in set(flat)]:
         raise ValueError("data members must be listed in stream order")
     crc_mode = layout.get("crc", "substream")
-    filler = bytes(layout.get("packpos", 0))
+    filler = bytes(layout.get("packpos", 0)) if folders_l else b""
     packs = []
     folders = []
     nums, ssizes, scrcs = [], [], []
